@@ -299,7 +299,7 @@ def plan_history(i):
     h.seed = seed
     h.images = {}
     h.observations = []
-    h.faulty = rng.chance(1, 2)
+    h.faulty = rng.chance(3, 5)
     nslots = rng.between(2, 4)
     length = rng.between(2, W["max_len"]) if rng.chance(3, 4) else rng.between(2, 5)
     bases = W["bases"]
@@ -313,7 +313,9 @@ def plan_history(i):
         # on the disk - same version but other variant (PyPy vs CPython), or same magic but other content
         if slots and rng.chance(1, 3):
             other = slots[rng.choice(sorted(slots))]
-            sib = _siblings(other["bi"], want_small)
+            sib = _twins(other["bi"], want_small) if rng.chance(1, 3) else []
+            if not sib:
+                sib = _siblings(other["bi"], want_small)
             if sib:
                 bi = rng.choice(sib)
         base = bases[bi]
@@ -354,7 +356,7 @@ def plan_history(i):
     if W["have_click"]:
         kinds_all.append(("cli", 3))
     if h.faulty:
-        kinds_all += [("dis_abort", 8), ("load_abort", 4)]
+        kinds_all += [("dis_abort", 10), ("load_abort", 4)]
     # swarm: each run uses a random subset of op kinds (always keeps load+dis)
     kinds = [kw for kw in kinds_all if kw[0] in ("load", "dis", "install") or rng.chance(3, 4)]
     install(rng.below(nslots), rng.chance(2, 3))
@@ -384,16 +386,20 @@ def plan_history(i):
             elif kind in ("rewrite", "lineoffs", "info"):
                 ops.append([kind, s, st["sha"], st["name"]])
             elif kind == "dis_abort":
-                k = rng.choice([1, 1, 2, 3, 4, 5, 8, 13, 21, rng.between(1, 60)])
-                fmt = rng.choice(FORMATS)
+                # small listings make 6-20 writes: the header takes the first 3-5, then two per code object;
+                # most faults should land after something has been registered and before the end
+                k = rng.choice([1, 2, 4, 5, 6, 7, 8, 9, 10, 11, 12, 14, 16, 19, 23, 30, rng.between(1, 60)])
+                fmt = rng.choice(FORMATS + ["xasm", "extended"])
                 ops.append(["dis_abort", s, st["sha"], st["name"], fmt, k,
                             rng.choice(["EPIPE", "ENOSPC", "EIO", "CLOSED"])])
                 if rng.chance(2, 3):
                     # probe the subsystem the fault just interrupted: the same format, on a sibling of the file
                     # (same release, often the same program compiled by another producer: same function names)
                     s2 = (s + 1) % nslots
-                    sib = _siblings(st["bi"], True)
-                    if sib and rng.chance(3, 4):
+                    sib = _twins(st["bi"], True) if rng.chance(2, 3) else []
+                    if not sib:
+                        sib = _siblings(st["bi"], True)
+                    if sib and rng.chance(4, 5):
                         _install_exact(s2, rng.choice(sib))
                         st2 = slots[s2]
                         ops.append(["dis", s2, st2["sha"], st2["name"], fmt])
@@ -444,6 +450,36 @@ def plan_history(i):
 
 
 _SETS = {}
+
+
+def _stem(name):
+    """program identity of a corpus file name: '015_00_chained-compare.ts.pyc' -> '00_chained-compare'"""
+    import re
+
+    n = name
+    for suf in (".pypy38.pyc", ".pyc", ".pyo"):
+        if n.endswith(suf):
+            n = n[: -len(suf)]
+            break
+    n = re.sub(r"\.(ts|ch|uh|alt)$", "", n)
+    n = re.sub(r"^\d{3}_", "", n)
+    n = re.sub(r"\.py$", "", n)
+    return n
+
+
+def _twins(bi, want_small):
+    """other files holding the SAME PROGRAM (compiled by another producer / release / invalidation mode): same
+    function names, same constants - what name-keyed or content-keyed state collides on"""
+    if "by_stem" not in _SETS:
+        bys = {}
+        for k in W["loadable"]:
+            bys.setdefault(_stem(W["bases"][k].name), []).append(k)
+        _SETS["by_stem"] = bys
+    tw = [k for k in _SETS["by_stem"].get(_stem(W["bases"][bi].name), []) if k != bi]
+    if want_small:
+        small = _small_set()
+        tw = [k for k in tw if k in small]
+    return tw
 
 
 def _siblings(bi, want_small):
